@@ -477,6 +477,10 @@ func (e *ssaEval) instr(fr *frame, ins ssa.Instruction) {
 					return
 				}
 			}
+			if v, ok := e.fixedTableLoad(x, a); ok { // an element of a package-level table that is never written (ext_x8.go)
+				set(x, v)
+				return
+			}
 			if a.k == svAddr {
 				set(x, symV("*"+a.s))
 			}
@@ -1181,6 +1185,9 @@ func (e *ssaEval) doCall(fr *frame, x *ssa.Call) sv {
 	maxDepth := 4
 	if e.maxDepth > 0 {
 		maxDepth = e.maxDepth
+	}
+	if g := e.c.thunkTarget(fn); g != nil { // a method expression held as a function value (ext_x8.go)
+		fn = g
 	}
 	if fn != nil && len(fn.Blocks) > 0 && (e.c.inModule(fn) || pureStdHelper(fn) || e.inlineLib != nil && e.inlineLib(fn)) && e.depth < maxDepth && (e.noInline == nil || !e.noInline(fn)) {
 		// closures: bind the free variables to the values of the bindings
